@@ -447,6 +447,119 @@ fn a2ml_in_include_file_case(rng: &mut Rng, rec: &mut Recorder, scratch: &Path, 
     let _ = std::fs::remove_dir_all(&root);
 }
 
+/// /include inside IF_DATA that is interpreted with the A2ML block of the file: the included tokens
+/// end up in tagged items that sit inside repeated structs and arrays of the generic IF_DATA tree
+fn interpreted_ifdata_include_case(rng: &mut Rng, rec: &mut Recorder, scratch: &Path, case: u64) {
+    let root = scratch.join(format!("c16i_{case}"));
+    let _ = std::fs::remove_dir_all(&root);
+    std::fs::create_dir_all(root.join("inc")).unwrap();
+    // one case in four: an A2ML text that cannot be interpreted (reported, text kept): the IF_DATA
+    // is then uninterpreted data, and the A2ML block must survive merge_includes() like any other
+    let broken_a2ml = rng.chance(1, 4);
+    let a2ml = if broken_a2ml {
+        rec.bump("include_inside_if_data.with_uninterpretable_a2ml");
+        "block \"IF_DATA\" struct { unknown_type x; };"
+    } else {
+        "block \"IF_DATA\" taggedunion {\n  \"SEQ\" (struct { uint; taggedstruct { \"T\" uint; (\"R\" uint)*; block \"B\" struct { uint; }; }; })*;\n  \"ARR\" struct { uint; taggedstruct { \"T\" uint; (\"R\" uint)*; }; }[2];\n  \"TOP\" taggedstruct { \"T\" uint; (\"R\" uint)*; };\n};"
+    };
+    let ctx = if broken_a2ml { "(include inside IF_DATA, uninterpretable A2ML block)" } else { "(include inside interpreted IF_DATA)" };
+    let n1 = rng.below(100);
+    let n2 = rng.below(100);
+    // (IF_DATA text with an include directive, content of the include file)
+    let variants: [(String, String); 5] = [
+        (format!("SEQ 10 /include inc/t.a2l 20 T {n2}"), format!("T {n1} R 1 R 2")),
+        (format!("SEQ 10 T {n1} /include \"inc/t.a2l\" 20"), format!("R 3 /begin B {n2} /end B")),
+        (format!("ARR 10 /include inc\\t.a2l 20 T {n2}"), format!("T {n1} R 4")),
+        (format!("ARR 10 T {n1} 20 /include inc/t.a2l"), format!("T {n2} R 5 R 6")),
+        (format!("TOP /include inc/t.a2l R 9"), format!("T {n1} R 7")),
+    ];
+    let (body, inc) = &variants[rng.below(variants.len())];
+    let host = rng.below(2);
+    let wrap = |ifd: &str| -> String {
+        let ifdata = format!("/begin IF_DATA {ifd} /end IF_DATA");
+        let inner = if host == 0 {
+            ifdata
+        } else {
+            format!("/begin MEASUREMENT x \"\" UBYTE NO_COMPU_METHOD 0 0 0 255\n{ifdata}\n/end MEASUREMENT")
+        };
+        format!("ASAP2_VERSION 1 71\n/begin PROJECT p \"\"\n/begin MODULE m \"\"\n/begin A2ML\n{a2ml}\n/end A2ML\n{inner}\n/end MODULE\n/end PROJECT\n")
+    };
+    let main_text = wrap(body);
+    let flat_body = {
+        let at = body.find("/include").unwrap();
+        let rest = &body[at + 8..];
+        let rest = rest.trim_start();
+        let name_end = rest.find(char::is_whitespace).unwrap_or(rest.len());
+        format!("{}{} {}", &body[..at], inc, &rest[name_end..])
+    };
+    let flat_text = wrap(&flat_body);
+    std::fs::write(root.join("inc/t.a2l"), inc).unwrap();
+    let main = root.join("main.a2l");
+    std::fs::write(&main, &main_text).unwrap();
+    rec.eval();
+    rec.bump("include_inside_interpreted_if_data");
+    rec.nontrivial(format!("{main_text}|{inc}").as_bytes());
+    let w = Json::obj().with("main.a2l", Json::s(&main_text)).with("inc/t.a2l", Json::s(inc)).with("flattened", Json::s(&flat_text));
+    let reference = match load_str(&flat_text, false) {
+        Ok(Ok((m, _))) => m,
+        _ => {
+            rec.bump("include_inside_interpreted_if_data.flat_rejected");
+            let _ = std::fs::remove_dir_all(&root);
+            return;
+        }
+    };
+    let all_valid = |f: &a2lfile::A2lFile| f.project.module[0].if_data.iter().chain(f.project.module[0].measurement.iter().flat_map(|m| m.if_data.iter())).all(|i| i.ifdata_valid);
+    if !broken_a2ml {
+        if all_valid(&reference) {
+            rec.bump("include_inside_interpreted_if_data.valid");
+        } else {
+            rec.bump("include_inside_interpreted_if_data.flat_not_valid");
+        }
+    }
+    match guarded(|| a2lfile::load(&main, None, false)) {
+        Err((sig, detail)) => rec.violation(&sig, &detail, w),
+        Ok(Err(e)) => rec.violation(
+            &format!("file with an include inside interpreted IF_DATA is rejected: {}", crate::gram::err_class(&e)),
+            &e.to_string(),
+            w,
+        ),
+        Ok(Ok((m, _))) => {
+            if m != reference {
+                rec.violation(
+                    &format!("model loaded through /include differs from the model of the flattened text {ctx}"),
+                    &crate::c01::model_diff(&reference, &m),
+                    w,
+                );
+            } else {
+                let mut mm = m.clone();
+                if let Err((sig, detail)) = guarded(|| mm.merge_includes()) {
+                    rec.violation(&sig, &detail, w);
+                } else {
+                    let out = mm.write_to_string();
+                    if out.contains("/include") {
+                        rec.violation(
+                            &format!("output of merge_includes() still contains an /include directive {ctx}"),
+                            &clip(&out, 1200),
+                            w,
+                        );
+                    } else {
+                        match load_str(&out, false) {
+                            Ok(Ok((m3, _))) if m3 == reference => {}
+                            Ok(Ok((m3, _))) => rec.violation(
+                                &format!("model of the merge_includes() output differs {ctx}"),
+                                &crate::c01::model_diff(&reference, &m3),
+                                w,
+                            ),
+                            _ => rec.violation(&format!("output of merge_includes() does not load {ctx}"), &clip(&out, 1200), w),
+                        }
+                    }
+                }
+            }
+        }
+    }
+    let _ = std::fs::remove_dir_all(&root);
+}
+
 /// An include file uses, for its own nested include, the relative name by which it was included
 /// itself: relative to its own directory this is another file, not a recursion.
 fn same_relative_name_case(rng: &mut Rng, rec: &mut Recorder, scratch: &Path, case: u64) {
@@ -702,6 +815,10 @@ pub fn run(args: &Args, rec: &mut Recorder) {
     run_cases(args, rec, total + n_faults, crate::util::reset_budget, |rng, case, rec| {
         if case < n_faults {
             fault_case(rng, rec, &scratch, case);
+            return None;
+        }
+        if case % 25 == 11 {
+            interpreted_ifdata_include_case(rng, rec, &scratch, case);
             return None;
         }
         let mut cfg = crate::c01::gen_cfg_wide(rng, false);
